@@ -68,6 +68,21 @@ def canon(e: ast.expr) -> str:
         if isinstance(op, (ast.Eq, ast.NotEq)):
             eq = isinstance(op, ast.Eq) != neg
             return f"{norm(l)} {'==' if eq else '!='} {norm(r)}"
+        if isinstance(op, (ast.Is, ast.IsNot)):
+            same = isinstance(op, ast.Is) != neg
+            return f"{norm(l)} {'is' if same else 'is not'} {norm(r)}"
+        if isinstance(op, (ast.Lt, ast.LtE, ast.Gt, ast.GtE)):
+            # orderings are written with < and <= only:  a >= b  is  b <= a;  not (a < b)  is  b <= a
+            kind = type(op)
+            if neg:
+                kind = {ast.Lt: ast.GtE, ast.LtE: ast.Gt, ast.Gt: ast.LtE, ast.GtE: ast.Lt}[kind]
+            a, b = norm(l), norm(r)
+            if kind in (ast.Gt, ast.GtE):
+                a, b = b, a
+            return f"{a} {'<' if kind in (ast.Lt, ast.Gt) else '<='} {b}"
+        if isinstance(op, (ast.In, ast.NotIn)) and _const_set(r) is None:
+            member = isinstance(op, ast.In) != neg
+            return f"{norm(l)} {'in' if member else 'not in'} {norm(r)}"
     # x not in (a, b)  ≡  x != a and x != b  ≡  x is not a and x != b      (constants)
     def member_form(x: ast.expr):
         if isinstance(x, ast.Compare) and len(x.ops) == 1 and isinstance(x.ops[0], (ast.In, ast.NotIn)):
@@ -144,3 +159,25 @@ def nnf(e: ast.expr, neg: bool = False) -> str:
         return ("and(" if is_and else "or(") + ", ".join(parts) + ")"
     inner = ast.UnaryOp(op=ast.Not(), operand=e) if neg else e
     return canon(inner)
+
+
+def facts(e: ast.expr, holds: bool = True) -> set:
+    """Canonical literals that are certainly true when `e` evaluates to `holds` (conjunctions split, De Morgan applied)."""
+    if isinstance(e, ast.UnaryOp) and isinstance(e.op, ast.Not):
+        return facts(e.operand, not holds)
+    if isinstance(e, ast.BoolOp):
+        conj = isinstance(e.op, ast.And) == holds
+        if conj:
+            out = set()
+            for v in e.values:
+                out |= facts(v, holds)
+            return out
+        return {nnf(e, not holds)}
+    return {nnf(e, not holds)}
+
+
+def facts_text(text: str, holds: bool = True) -> set:
+    try:
+        return facts(ast.parse(text, mode="eval").body, holds)
+    except SyntaxError:
+        return {text if holds else f"not ({text})"}
